@@ -13,30 +13,41 @@ EXTENDS FiniteSets, TLC
 CONSTANTS Clients, Segs
 
 VARIABLES holds,    \* set of <<client, hold id, segment>>
-          closed, deleted
+          closed, deleted,
+          copying   \* segments whose directory is being hard-linked by the closed path of a file snapshot (C19)
 
-hvars == <<holds, closed, deleted>>
+hvars == <<holds, closed, deleted, copying>>
 
-HInit == holds = {} /\ closed = {} /\ deleted = {}
+HInit == holds = {} /\ closed = {} /\ deleted = {} /\ copying = {}
 
 Held(s) == \E h \in holds : h[3] = s
 
 HoldBegin(c, k, s) ==        \* the acquisition returned: the segment is open (reopened if it was idle-closed)
   /\ s \notin deleted
-  /\ holds' = holds \cup {<<c, k, s>>} /\ closed' = closed \ {s} /\ UNCHANGED deleted
+  /\ s \notin copying        \* a closed segment is not reopened while its files are being copied
+  /\ holds' = holds \cup {<<c, k, s>>} /\ closed' = closed \ {s} /\ UNCHANGED <<deleted, copying>>
 
 HoldEnd(c, k, s) ==
   /\ <<c, k, s>> \in holds
-  /\ holds' = holds \ {<<c, k, s>>} /\ UNCHANGED <<closed, deleted>>
+  /\ holds' = holds \ {<<c, k, s>>} /\ UNCHANGED <<closed, deleted, copying>>
 
-Close(s) == /\ ~Held(s) /\ closed' = closed \cup {s} /\ UNCHANGED <<holds, deleted>>
+Close(s) == /\ ~Held(s) /\ s \notin copying /\ closed' = closed \cup {s} /\ UNCHANGED <<holds, deleted, copying>>
 
-Delete(s) == /\ ~Held(s) /\ deleted' = deleted \cup {s} /\ closed' = closed \cup {s} /\ UNCHANGED holds
+Delete(s) == /\ ~Held(s) /\ s \notin copying
+             /\ deleted' = deleted \cup {s} /\ closed' = closed \cup {s} /\ UNCHANGED <<holds, copying>>
+
+\* the closed path of TakeFileSnapshot: only a segment nobody holds is copied from its files, and until the copy is
+\* complete it is neither reopened (its tables would flush and merge under the copy) nor deleted
+CopyBegin(s) == /\ ~Held(s) /\ s \notin deleted /\ s \notin copying
+                /\ copying' = copying \cup {s} /\ UNCHANGED <<holds, closed, deleted>>
+
+CopyEnd(s) == /\ s \in copying /\ copying' = copying \ {s} /\ UNCHANGED <<holds, closed, deleted>>
 
 HNext == \/ \E c \in Clients, s \in Segs : HoldBegin(c, 1, s) \/ HoldEnd(c, 1, s)
-         \/ \E s \in Segs : Close(s) \/ Delete(s)
+         \/ \E s \in Segs : Close(s) \/ Delete(s) \/ CopyBegin(s) \/ CopyEnd(s)
 
 HSpec == HInit /\ [][HNext]_hvars
 
 HeldIsOpen == \A h \in holds : h[3] \notin closed /\ h[3] \notin deleted
+CopyUndisturbed == \A s \in copying : ~Held(s) /\ s \notin deleted
 =============================================================================
